@@ -9,7 +9,7 @@ package logic
 // not numbers or numeric text never satisfy an ordering test.
 
 //@ func MatchesCondition
-//@   property C08
+//@   property C08 C06
 //@   option prelude=json
 //@   option load=gripql,jsonpath,gdbi
 //@   nopanic
@@ -52,7 +52,7 @@ package logic
 // axioms are the input model: what protobuf/JSON decoding can produce (payload of a
 // populated oneof wrapper and elements of a repeated field are never nil).
 //@ func MatchesHasExpression
-//@   property C08
+//@   property C08 C06
 //@   option prelude=json
 //@   option load=gripql,jsonpath,gdbi
 //@   nopanic
